@@ -91,6 +91,11 @@ HEAP = ("heap",)
 YV = ("yv",)
 YMAP = ("ymap",)  # Dict[str, Any]
 UNIT = ("unit",)
+CFGFUNC = ("GroupConfigFunction",)
+CFGCONTRACT = ("GroupConfigContract",)
+CFGCONFIG = ("GroupConfig",)
+FNIDX = ("fnidx",)  # a Function object of the contracts loop: its index in the table of constructed functions
+FTABLE = ("ftable",)  # the constructed functions in construction order (the arguments of construct_function)
 
 
 def opt(t):
@@ -109,7 +114,8 @@ def coqty(t, top=True):
     simple = {
         "str": "string", "Z": "Z", "bool": "bool", "ref": "nat", "gobj": "gobj", "fn": "fn_obj", "contract": "tcontract", "ttype": "string",
         "ctype": "string", "heap": "list tobj", "yv": "yv", "ymap": "list (string * yv)", "unit": "unit", "gri": "list (gtxn * list (gtxn * Z))",
-        "pair": "pair", "GroupConfigTransaction": "GroupConfigTransaction", "GroupConfigFunctionCall": "GroupConfigFunctionCall", "GroupConfigGroup": "GroupConfigGroup",
+        "pair": "pair", "GroupConfigFunction": "GroupConfigFunction", "GroupConfigContract": "GroupConfigContract", "GroupConfig": "GroupConfig",
+        "fnidx": "nat", "ftable": "list (tcontract * list string * string)", "GroupConfigTransaction": "GroupConfigTransaction", "GroupConfigFunctionCall": "GroupConfigFunctionCall", "GroupConfigGroup": "GroupConfigGroup",
     }  # fmt: skip
     if t[0] in simple:
         s = simple[t[0]]
@@ -149,7 +155,14 @@ ENUMS = {
     ),
 }
 EXN_CLASSES = {"TealerException": "ETealer", "InvalidGroupConfiguration": "EInvalid"}
-DATACLASSES = {"GroupConfigFunctionCall": ("fc_", CFGCALL), "GroupConfigTransaction": ("ct_", CFGTXN), "GroupConfigGroup": ("cg_", CFGGROUP)}
+DATACLASSES = {
+    "GroupConfigFunctionCall": ("fc_", CFGCALL), "GroupConfigTransaction": ("ct_", CFGTXN), "GroupConfigGroup": ("cg_", CFGGROUP),
+    "GroupConfigFunction": ("cf_", CFGFUNC), "GroupConfigContract": ("cc_", CFGCONTRACT), "GroupConfig": ("gc_", CFGCONFIG),
+}  # fmt: skip
+DATACLASSES_1 = ("GroupConfigFunctionCall", "GroupConfigTransaction", "GroupConfigGroup")
+DATACLASSES_2 = ("GroupConfigFunction", "GroupConfigContract", "GroupConfig")
+# stores into a Teal object that is a value variable of the contracts loop
+CONTRACT_STORE = {"contract_type": ("set_c_contract_type", CTYPE), "functions": ("set_c_functions", ("dict", STR, FNIDX))}
 
 RESERVED = {
     "heap", "st", "rs", "Ok", "Raise", "rbind", "foldE", "mapR", "exn", "ETealer", "EInvalid", "EKeyError", "ETypeError", "sdict_set", "sdict_get",
@@ -160,7 +173,10 @@ RESERVED = {
     "fold_left", "map", "filter", "rev", "fst", "snd", "negb", "andb", "orb", "true", "false", "nil", "cons", "app", "Some", "None", "length", "nth",
     "O", "S", "nat", "string", "bool", "list", "option", "Z", "N", "unit", "tt", "gtxn", "in", "at", "as", "fun", "let", "match", "end", "if", "then",
     "else", "return", "with", "forall", "exists", "fix", "cofix", "for", "where", "using", "Type", "Prop", "Set", "SProp", "struct", "_",
-    "opt_is_some", "ret", "bind", "py", "funcs", "checks", "dtype", "vtypes",
+    "opt_is_some", "ret", "bind", "py", "funcs", "checks", "dtype", "vtypes", "abs_slot",
+    "ftable", "load_and_parse", "construct_function_call", "ch_isdigit", "s_startswith", "s_is_empty", "s_forall", "s_isdigit", "s_slice_from", "s_in_list",
+    "as_all", "as_list_of", "try_reraise_invalid", "set_c_contract_type", "set_c_functions", "GROUP_CONFIG_CONTRACT_TYPES", "init_contracts_gen",
+    "contract_type_from_txt_gen", "init_tealer_from_config_gen", "ascii", "mapR",
 }  # fmt: skip
 
 # ----------------------------------------------------------------------------- fixed prelude
@@ -243,13 +259,21 @@ Definition set_gr_absolute_indexes v g := mkGobj (gr_transactions g) v (gr_group
 Definition set_gr_group_relative_indexes v g := mkGobj (gr_transactions g) (gr_absolute_indexes g) v (gr_operation_name g).
 Definition set_gr_operation_name v g := mkGobj (gr_transactions g) (gr_absolute_indexes g) (gr_group_relative_indexes g) v.
 
+(* ---- txn.absoulte_index is any Python int (the configuration is not validated); the model's record and Gen/GroupGen.v
+   hold a natural number.  abs_slot i = the slot of the MAX_GROUP_SIZE-entry context lists that gtxn_context(i) /
+   absolute_context(i) read: a negative i indexes the Python list from its end; i >= MAX_GROUP_SIZE raises
+   TealerException and i < -MAX_GROUP_SIZE IndexError: both are sent to an out-of-range slot, on which Gen/GroupGen.v
+   raises as well (Lemmas/AbsIndexLemmas.v: the three consumers of the index agree on i and abs_slot i, for EVERY i) *)
+Definition abs_slot (i : Z) : N :=
+  let m := Z.of_N MAX_GROUP_SIZE in
+  if (i <? - m)%Z then MAX_GROUP_SIZE else if (i <? 0)%Z then Z.to_N (m + i) else Z.to_N i.
+
 (* ---- the Transaction objects as Gen/GroupGen.v reads them (its GLUE TABLE 1): the model's record gtxn, a Function by
-   its index, a referenced transaction by its id; GroupGen reads absoulte_index as option_map Z.of_N (g_abs ..), so
-   only non-negative absolute indexes are represented faithfully (Lemmas/GroupInitGenLemmas.v: abs_nonneg) *)
+   its index, a referenced transaction by its id, the absolute index by its slot *)
 Definition view_txn (heap : list tobj) (r : nat) : gtxn :=
   let o := hread heap r in
   mkTxn (o_transacton_id o) (o_type o) (o_has_logic_sig o) (option_map fst (o_logic_sig o)) (option_map fst (o_application o))
-        (option_map Z.to_N (o_absoulte_index o))
+        (option_map abs_slot (o_absoulte_index o))
         (map (fun kv => (fst kv, o_transacton_id (hread heap (snd kv)))) (o_relative_indexes o)).
 Definition view_group (heap : list tobj) (g : gobj) : list gtxn := map (view_txn heap) (gr_transactions g).
 (* fill_group_relative_indexes(group_obj): Gen/GroupGen.v, on the current value of the attribute *)
@@ -271,14 +295,61 @@ Definition init_tealer_from_config_groups_gen (contracts : list (string * tcontr
   mapR (init_group_gen contracts) groups.
 """
 
+# appended to the PRELUDE (the contracts part of a configuration)
+PRELUDE2 = r"""
+(* ---- PRELUDE, part 2: the contracts part of a configuration *)
+From Coq Require Import Ascii.
+(* the str methods used by GroupConfigFunction.from_yaml, under the assumption that the text is ASCII (the reading of
+   Gen/LineGen.v's prelude, same text under other names) *)
+(* the ASCII code points c with chr(c).isdigit() *)
+Definition ch_isdigit (c : ascii) : bool := let n := nat_of_ascii c in (Nat.leb 48 n && Nat.leb n 57)%bool.
+(* s.startswith(p) *)
+Definition s_startswith (s p : string) : bool := String.prefix p s.
+Definition s_is_empty (s : string) : bool := match s with EmptyString => true | String _ _ => false end.
+Fixpoint s_forall (f : ascii -> bool) (s : string) : bool :=
+  match s with EmptyString => true | String c t => (f c && s_forall f t)%bool end.
+(* s.isdigit(): at least one character, and all characters are decimal digits *)
+Definition s_isdigit (s : string) : bool := (negb (s_is_empty s) && s_forall ch_isdigit s)%bool.
+(* s[n:] for a constant n >= 0 (the text without its first n characters; "" when there are fewer) *)
+Fixpoint s_slice_from (n : nat) (s : string) : string :=
+  match n, s with
+  | O, _ => s
+  | S _, EmptyString => EmptyString
+  | S n', String _ t => s_slice_from n' t
+  end.
+(* x in l / x not in l for a list of str *)
+Definition s_in_list (x : string) (l : list string) : bool := existsb (String.eqb x) l.
+(* List[T] at a typed place: a YAML list whose members all read as T *)
+Fixpoint as_all {A : Type} (f : yv -> rs A) (l : list yv) : rs (list A) :=
+  match l with
+  | [] => Ok []
+  | v :: t => rbind (f v) (fun a => rbind (as_all f t) (fun r => Ok (a :: r)))
+  end.
+Definition as_list_of {A : Type} (f : yv -> rs A) (v : yv) : rs (list A) := rbind (as_list v) (as_all f).
+(* try: m  except InvalidGroupConfiguration as err: raise InvalidGroupConfiguration(f"<prefix>{err}")
+   str(err) is the message of the caught exception: the template of the new message is the prefix's template followed
+   by the caught one; a result and every other exception pass *)
+Definition try_reraise_invalid {A : Type} (prefix : string) (m : rs A) : rs A :=
+  match m with
+  | Raise (EInvalid t) => Raise (EInvalid (prefix ++ t))
+  | other => other
+  end.
+(* ---- GLUE TABLE: stores into a Teal object that is a value variable (contracts loop of init_tealer_from_config).
+   There a Function object is its index in the table of constructed functions: teal.functions = {name: index} *)
+Definition set_c_contract_type (v : string) (c : tcontract) : tcontract := mkContract (c_contract_name c) v (c_functions c).
+Definition set_c_functions (v : list (string * nat)) (c : tcontract) : tcontract := mkContract (c_contract_name c) (c_contract_type c) v.
+"""
+
+POSTLUDE2 = r"""
+(* ---- init_tealer_from_config as a whole (structure checked by the translator): `contracts = {}`, the contracts loop,
+   `group_objs_list = []`, the groups loop, `return Tealer(contracts, group_objs_list, output_group=True)`:
+   (contracts, the constructed functions, the groups) *)
+Definition init_tealer_from_config_gen (config : GroupConfig) : rs (list (string * tcontract) * list (tcontract * list string * string) * list (list tobj * gobj)) :=
+  rbind (init_contracts_gen config) (fun cf =>
+  rbind (init_tealer_from_config_groups_gen (fst cf) (gc_groups config)) (fun gs => Ok (fst cf, snd cf, gs))).
+"""
+
 # ----------------------------------------------------------------------------- fingerprints
-CONTRACTS_LOOP = (
-    "for contract_config in config.contracts:\n    with open(contract_config.file_path, encoding='utf-8') as f:\n        teal = parse_teal(f.read(), contract_config.name)\n"
-    "    given_contract_type = contract_type_from_txt(contract_config.contract_type)\n    teal.contract_type = given_contract_type\n"
-    "    contract_functions: Dict[str, 'Function'] = {}\n    for function_config in contract_config.functions:\n"
-    "        func = construct_function(teal, function_config.dispatch_path, function_config.name)\n        contract_functions[function_config.name] = func\n"
-    "    teal.functions = contract_functions\n    contracts[contract_config.name] = teal"
-)
 SINGLE_HEAD = [
     "teal = parse_teal(contract_src, contract_name)",
     "contracts: Dict[str, 'Teal'] = {contract_name: teal}",
@@ -287,6 +358,11 @@ SINGLE_HEAD = [
     "teal.functions = contract_functions",
 ]
 SINGLE_TAIL = ["group_objs_list = [group_obj]", "return Tealer(contracts, group_objs_list)"]
+EXN_CLASS_TEXT = "class InvalidGroupConfiguration(Exception):\n    pass"
+TEAL_SETTERS = {
+    "contract_type": "@contract_type.setter\ndef contract_type(self, contract_type: ContractType) -> None:\n    self._contract_type = contract_type",
+    "functions": "@functions.setter\ndef functions(self, functions: Dict[str, 'Function']) -> None:\n    self._functions = functions",
+}
 FINGERPRINTS = [
     (TEAL_REL, "Teal", "functions", "@property\ndef functions(self) -> Dict[str, 'Function']:\n    return self._functions"),
     (TEAL_REL, "Teal", "contract_name", "@property\ndef contract_name(self) -> str:\n    return self._contract_name"),
@@ -308,6 +384,12 @@ def check_fingerprints():
     g = find_def(path, tree, "Teal", "contract_type")
     if ast.unparse(strip_doc(g.body)[0]) != "return self._contract_type":
         fail(path, g, "Teal.contract_type no longer returns self._contract_type")
+    # Teal.contract_type / Teal.functions: the setters write the attribute the getters return
+    tcls = [n for n in tree.body if isinstance(n, ast.ClassDef) and n.name == "Teal"]
+    for name, text in TEAL_SETTERS.items():
+        ss = [n for n in tcls[0].body if isinstance(n, ast.FunctionDef) and n.name == name and any(ast.unparse(d).endswith(".setter") for d in n.decorator_list)]
+        if len(ss) != 1 or unparse_nodoc(ss[0]) != text:
+            fail(path, ss[0] if ss else tcls[0], f"the setter of Teal.{name} is no longer the plain store the glue table stands for")
     # Function.contract is the constructor argument, construct_function passes teal
     path = os.path.join(T, FN_REL)
     init = find_def(path, parse(path), "Function", "__init__")
@@ -358,6 +440,8 @@ def ann_type(path, node, yaml_any=False):
             return FN
         if node.id == "Teal":
             return CONTRACT
+        if node.id == "Path":
+            return STR  # GLUE: a Path is its text
         if node.id == "Any" and yaml_any:
             return YV
     if isinstance(node, ast.Subscript) and isinstance(node.value, ast.Name):
@@ -411,10 +495,16 @@ class DataClasses:
                 seen_default |= d
             self.fields[cname] = [(n, t) for n, t, _ in fs]
         # dependency order: FunctionCall, Transaction, Group
-        for cname in ("GroupConfigFunctionCall", "GroupConfigTransaction", "GroupConfigGroup"):
+        for cname in DATACLASSES_1:
             prefix = DATACLASSES[cname][0]
             fl = "; ".join(f"{prefix}{n} : {coqty(t)}" for n, t in self.fields[cname])
             self.text.append(f"Record {cname} : Type := mk{cname} {{ {fl} }}.")
+        # the contracts part (emitted after the group part): Function, Contract, Config
+        self.text2 = []
+        for cname in DATACLASSES_2:
+            prefix = DATACLASSES[cname][0]
+            fl = "; ".join(f"{prefix}{n} : {coqty(t)}" for n, t in self.fields[cname])
+            self.text2.append(f"Record {cname} : Type := mk{cname} {{ {fl} }}.")
 
     def attr(self, cls_t, name):
         cname = cls_t[0]
@@ -563,6 +653,15 @@ class Tr:
             if ty == FN and e.attr in FN_ATTRS:
                 return b, f"({FN_ATTRS[e.attr][0]} {t})", FN_ATTRS[e.attr][1]
             fail(self.path, e, f"attribute .{e.attr} of a value of type {ty}")
+        if isinstance(e, ast.Subscript) and isinstance(e.slice, ast.Slice):
+            # s[n:] on a str, n a non-negative constant
+            sl = e.slice
+            if sl.upper is not None or sl.step is not None or not (isinstance(sl.lower, ast.Constant) and type(sl.lower.value) is int and sl.lower.value >= 0):
+                fail(self.path, e, "slice other than [n:] with a constant n >= 0")
+            b1, t1, ty1 = self.expr(e.value, env, nar)
+            if ty1 != STR:
+                fail(self.path, e, f"slice of a value of type {ty1}")
+            return b1, f"(s_slice_from {sl.lower.value} {t1})", STR
         if isinstance(e, ast.Subscript):
             b1, t1, ty1 = self.expr(e.value, env, nar)
             b2, t2, ty2 = self.expr(e.slice, env, nar)
@@ -597,6 +696,8 @@ class Tr:
                     s = f"(sdict_mem {t1} {t2})"
                 elif ty2[0] == "dict" and ty2[1] == ty1:
                     s = f"({'sdict_mem' if ty1 == STR else 'zdict_mem'} {t1} {t2})"
+                elif ty2 == lst(STR) and ty1 == STR:
+                    s = f"(s_in_list {t1} {t2})"
                 else:
                     fail(self.path, e, f"`in` between {ty1} and {ty2}")
                 return b1 + b2, s if isinstance(op, ast.In) else f"(negb {s})", BOOL
@@ -629,6 +730,17 @@ class Tr:
             return [], "[" + "; ".join(t for t, _ in parts) + "]", lst(parts[0][1])
         if isinstance(e, ast.Dict) and not e.keys:
             return [], "[]", ("emptydict",)
+        if isinstance(e, ast.Dict):
+            # a dict literal with distinct constant str keys: the association list in the order of the literal
+            ks = []
+            for kx in e.keys:
+                if not (isinstance(kx, ast.Constant) and isinstance(kx.value, str)) or kx.value in ks:
+                    fail(self.path, e, "dict literal whose keys are not distinct str constants")
+                ks.append(kx.value)
+            parts = [self.pure(v, env, nar) for v in e.values]
+            if any(ty != parts[0][1] for _, ty in parts):
+                fail(self.path, e, "dict literal with values of different types")
+            return [], "[" + "; ".join(f"({coq_str(k)}, {t})" for k, (t, _) in zip(ks, parts)) + "]", dct(STR, parts[0][1])
         if isinstance(e, ast.Call):
             return self.call(e, env, nar)
         fail(self.path, e, f"expression {type(e).__name__}")
@@ -653,6 +765,23 @@ class Tr:
             if ty == YMAP and ty2 == STR:
                 return b + b2, f"(ymap_get_opt {t2} {t})", opt(YV)
             fail(self.path, e, ".get on a value that is not a YAML map")
+        # Path(x): GLUE, a Path is its text
+        if isinstance(f, ast.Name) and f.id == "Path" and f.id not in env and len(e.args) == 1:
+            b, t, ty = self.expr(e.args[0], env, nar)
+            b2, t2 = self.coerce(e, t, ty, STR)
+            return b + b2, t2, STR
+        # s.startswith("..") / s.isdigit() on a str
+        if isinstance(f, ast.Attribute) and f.attr in ("startswith", "isdigit"):
+            b, t, ty = self.expr(f.value, env, nar)
+            if ty != STR:
+                fail(self.path, e, f".{f.attr} of a value of type {ty}")
+            if f.attr == "isdigit":
+                if e.args:
+                    fail(self.path, e, "isdigit with arguments")
+                return b, f"(s_isdigit {t})", BOOL
+            if len(e.args) != 1 or not (isinstance(e.args[0], ast.Constant) and isinstance(e.args[0].value, str)):
+                fail(self.path, e, "startswith of something else than one str constant")
+            return b, f"(s_startswith {t} {coq_str(e.args[0].value)})", BOOL
         # ", ".join(..) only inside messages: not an expression here
         if isinstance(f, ast.Name) and f.id in self.funs and f.id not in env:
             coqn, ptys, rty = self.funs[f.id]
@@ -708,6 +837,9 @@ class Tr:
         if ty == YV and want == lst(YV):
             v = self.fresh()
             return [(v, f"(as_list {term})")], v
+        if ty == YV and want[0] == "list" and want[1] in yread:
+            v = self.fresh()
+            return [(v, f"(as_list_of {yread[want[1]]} {term})")], v
         if ty == opt(YV) and want[0] == "option" and want[1] in yread:
             v = self.fresh()
             return [(v, f"(as_opt {yread[want[1]]} {term})")], v
@@ -775,7 +907,7 @@ class Tr:
                     return
             if isinstance(tg, ast.Attribute) and isinstance(tg.value, ast.Name):
                 n = tg.value.id
-                add(n if (n in self.gvars or env.get(n) == GOBJ) else "heap")
+                add(n if (n in self.gvars or n in self.cvars or env.get(n) == GOBJ) else "heap")
                 return
             fail(self.path, node, "assignment target")
 
@@ -786,6 +918,8 @@ class Tr:
                         store(tg, s)
                     if isinstance(s.value, ast.Call) and isinstance(s.value.func, ast.Name) and s.value.func.id == "Transaction":
                         add("heap")
+                    if isinstance(s.value, ast.Call) and isinstance(s.value.func, ast.Name) and s.value.func.id == "construct_function":
+                        add("ftable")
                 elif isinstance(s, ast.AnnAssign):
                     store(s.target, s)
                 elif isinstance(s, ast.For):
@@ -794,6 +928,10 @@ class Tr:
                 elif isinstance(s, ast.If):
                     go(s.body)
                     go(s.orelse)
+                elif isinstance(s, ast.With):
+                    go(s.body)
+                elif isinstance(s, ast.Try):
+                    go(s.body)  # the handler only raises (try_)
                 elif isinstance(s, ast.Expr) and isinstance(s.value, ast.Call):
                     c = s.value
                     if isinstance(c.func, ast.Name) and c.func.id == "fill_group_relative_indexes" and len(c.args) == 1 and isinstance(c.args[0], ast.Name):
@@ -866,7 +1004,81 @@ class Tr:
             return self.if_(s, env, nar, go)
         if isinstance(s, ast.For):
             return self.for_(s, env, nar, go)
+        if isinstance(s, ast.Try):
+            return self.try_(s, env, nar, go)
+        if isinstance(s, ast.With):
+            return self.with_(s, env, nar, go)
         fail(self.path, s, f"statement {type(s).__name__}")
+
+    def try_(self, s, env, nar, go):
+        """try: body  except InvalidGroupConfiguration as err: raise InvalidGroupConfiguration(f"<prefix>{err}")"""
+        if s.orelse or s.finalbody or len(s.handlers) != 1:
+            fail(self.path, s, "try with else / finally / several handlers")
+        h = s.handlers[0]
+        if not (isinstance(h.type, ast.Name) and h.type.id == "InvalidGroupConfiguration" and h.name and len(h.body) == 1 and isinstance(h.body[0], ast.Raise)):
+            fail(self.path, h, "handler other than `except InvalidGroupConfiguration as err: raise ..`")
+        r = h.body[0]
+        x = r.exc
+        if r.cause is not None or not (isinstance(x, ast.Call) and isinstance(x.func, ast.Name) and x.func.id == "InvalidGroupConfiguration" and len(x.args) == 1 and not x.keywords and isinstance(x.args[0], ast.JoinedStr) and x.args[0].values):
+            fail(self.path, r, "the handler does not raise InvalidGroupConfiguration(f\"..\")")
+        js = x.args[0]
+        last = js.values[-1]
+        if not (isinstance(last, ast.FormattedValue) and isinstance(last.value, ast.Name) and last.value.id == h.name and last.conversion == -1 and last.format_spec is None):
+            fail(self.path, r, "the message of the handler does not end with the caught exception `{err}`")
+        rest = ast.JoinedStr(values=js.values[:-1])
+        if any(isinstance(n, ast.Name) and n.id == h.name for n in ast.walk(rest)):
+            fail(self.path, r, "the caught exception is used twice in the message")
+        prefix = self.template(rest)
+        self.name_ok(h, h.name)
+        if h.name in env:
+            fail(self.path, h, f"{h.name} shadows a bound variable")
+        sv = self.state_of(s.body, env)
+        svt = [env[n] for n in sv]
+        body_t = self.block(s.body, env, nar, lambda e2, n2, ret=None: self.no_ret(ret, f"Ok {tup(sv)}"))
+        return f"rbind (try_reraise_invalid {coq_str(prefix)} (\n{ind(body_t)})) (fun (st : {tupty(svt)}) =>\n{destruct(sv, 'st')}{go(env, self.drop_nar(nar, sv))})"
+
+    def with_(self, s, env, nar, go):
+        """with open(path, encoding='utf-8') as f: teal = parse_teal(f.read(), name)   (contracts loop only)"""
+        if not self.contracts_mode:
+            fail(self.path, s, "with statement")
+        if len(s.items) != 1 or len(s.body) != 1:
+            fail(self.path, s, "with statement other than `with open(..) as f: x = parse_teal(f.read(), ..)`")
+        it = s.items[0]
+        c = it.context_expr
+        if not (isinstance(c, ast.Call) and isinstance(c.func, ast.Name) and c.func.id == "open" and "open" not in env and len(c.args) == 1
+                and [(k.arg, ast.unparse(k.value)) for k in c.keywords] == [("encoding", "'utf-8'")] and isinstance(it.optional_vars, ast.Name)):  # fmt: skip
+            fail(self.path, s, "context manager other than open(path, encoding='utf-8') as f")
+        f = it.optional_vars.id
+        a = s.body[0]
+        if not (isinstance(a, ast.Assign) and len(a.targets) == 1 and isinstance(a.targets[0], ast.Name) and isinstance(a.value, ast.Call) and isinstance(a.value.func, ast.Name)
+                and a.value.func.id == "parse_teal" and "parse_teal" not in env and len(a.value.args) == 2 and not a.value.keywords and ast.unparse(a.value.args[0]) == f"{f}.read()"):  # fmt: skip
+            fail(self.path, a, "body of the with statement other than `x = parse_teal(f.read(), name)`")
+        if f in env or any(isinstance(n, ast.Name) and n.id == f for n in ast.walk(a.value.args[1])) or any(isinstance(n, ast.Name) and n.id == f for n in ast.walk(c.args[0])):
+            fail(self.path, s, f"the file object {f} is used elsewhere")
+        n = a.targets[0].id
+        self.name_ok(a, n)
+        if n not in self.cvars or (n in env and env[n] != CONTRACT):
+            fail(self.path, a, f"{n} is not a Teal value variable")
+        bp, tp, typ = self.expr(c.args[0], env, nar)
+        bp2, tp2 = self.coerce(c, tp, typ, STR)
+        bn, tn, tyn = self.expr(a.value.args[1], env, nar)
+        bn2, tn2 = self.coerce(a, tn, tyn, STR)
+        v = self.fresh()
+        env2 = dict(env)
+        env2[n] = CONTRACT
+        return self.wrap(bp + bp2 + bn + bn2 + [(v, f"(load_and_parse {tp2} {tn2})")], f"let {n} := {v} in\n{go(env2, self.drop_nar(nar, [n]))}")
+
+    def fnmode(self, t):
+        """in the contracts loop a Function object is its index in the table of constructed functions"""
+        if not self.contracts_mode:
+            return t
+        if t == FN:
+            return FNIDX
+        if t[0] in ("option", "list"):
+            return (t[0], self.fnmode(t[1]))
+        if t[0] == "dict":
+            return (t[0], t[1], self.fnmode(t[2]))
+        return t
 
     def assign(self, s, env, nar, go):
         if isinstance(s, ast.Assign):
@@ -895,6 +1107,29 @@ class Tr:
             env2 = dict(env)
             env2[n] = GOBJ
             return f"let {n} := GroupTransaction_init in\n{go(env2, nar)}"
+        # ---- func = construct_function(teal, dispatch_path, name)   (contracts loop only): the next index of the
+        #      table of constructed functions; the call itself is an uninterpreted parameter (it may raise)
+        if isinstance(val, ast.Call) and isinstance(val.func, ast.Name) and val.func.id == "construct_function" and "construct_function" not in env:
+            if not self.contracts_mode or val.keywords or len(val.args) != 3 or not isinstance(tg, ast.Name) or ann is not None or "ftable" not in env:
+                fail(self.path, s, "construct_function call")
+            a0 = val.args[0]
+            if not (isinstance(a0, ast.Name) and a0.id in self.cvars and env.get(a0.id) == CONTRACT):
+                fail(self.path, s, "first argument of construct_function is not the Teal value variable")
+            b1, t1, ty1 = self.expr(val.args[1], env, nar)
+            b1c, t1 = self.coerce(s, t1, ty1, lst(STR))
+            b2, t2, ty2 = self.expr(val.args[2], env, nar)
+            b2c, t2 = self.coerce(s, t2, ty2, STR)
+            n = tg.id
+            self.name_ok(s, n)
+            if n in self.cvars or n in self.gvars or (n in env and env[n] != FNIDX):
+                fail(self.path, s, f"{n} re-bound with another type")
+            v = self.fresh()
+            env2 = dict(env)
+            env2[n] = FNIDX
+            return self.wrap(
+                b1 + b1c + b2 + b2c + [(v, f"(construct_function_call {a0.id} {t1} {t2})")],
+                f"let {n} := length ftable in\nlet ftable := ftable ++ [({a0.id}, {t1}, {t2})] in\n{go(env2, self.drop_nar(nar, [n, 'ftable']))}",
+            )
         b, t, ty = self.expr(val, env, nar)
         # ---- x = e
         if isinstance(tg, ast.Name):
@@ -902,7 +1137,9 @@ class Tr:
             self.name_ok(s, n)
             if n in self.gvars:
                 fail(self.path, s, "the group object variable is re-bound")
-            want = ann_type(self.path, ann, yaml_any=True) if ann is not None else None
+            if n in self.cvars:
+                fail(self.path, s, "a Teal value variable is bound to something else than parse_teal(..)")
+            want = self.fnmode(ann_type(self.path, ann, yaml_any=True)) if ann is not None else None
             if n in env:
                 if want is not None and want != env[n]:
                     fail(self.path, s, f"{n} re-annotated")
@@ -936,6 +1173,10 @@ class Tr:
             if env[o] == GOBJ and a in GRP_ATTRS:
                 b2, t2 = self.coerce(s, t, ty, GRP_ATTRS[a])
                 return self.wrap(b + b2, f"let {o} := set_gr_{a} {t2} {o} in\n{go(env, self.drop_nar(nar, [o]))}")
+            if env[o] == CONTRACT and o in self.cvars and a in CONTRACT_STORE:
+                setter, fty = CONTRACT_STORE[a]
+                b2, t2 = self.coerce(s, t, ty, fty)
+                return self.wrap(b + b2, f"let {o} := {setter} {t2} {o} in\n{go(env, self.drop_nar(nar, [o]))}")
             fail(self.path, s, f"store to .{a} of a value of type {env[o]}")
         # ---- d[k] = e  /  o.a[k] = e
         if isinstance(tg, ast.Subscript):
@@ -1086,9 +1327,10 @@ class Tr:
         return self.wrap(b, f"rbind ({loop}) (fun (st : {tupty(svt)}) =>\n{destruct(sv, 'st')}{go(env, self.drop_nar(nar, sv))})")
 
     # ------------------------------------------------------------------ whole functions
-    def function(self, fn, coqname, params, rty, comment, stmts=None, env_extra=None, end=None, pre=""):
+    def function(self, fn, coqname, params, rty, comment, stmts=None, env_extra=None, end=None, pre="", contracts_mode=False):
         """params: [(name, type)]; the body must end in `return e` unless `end` gives the final term"""
         self.n = 0
+        self.contracts_mode = contracts_mode
         self.loop_depth = 0
         self.group_allocated = False
         body = strip_doc(fn.body) if stmts is None else stmts
@@ -1099,6 +1341,14 @@ class Tr:
             for s in ast.walk(ast.Module(body=body, type_ignores=[]))
             if isinstance(s, ast.Assign) and len(s.targets) == 1 and isinstance(s.targets[0], ast.Name) and isinstance(s.value, ast.Call) and isinstance(s.value.func, ast.Name) and s.value.func.id == "GroupTransaction"
         }
+        # Teal value variables (contracts loop): the variables bound by `x = parse_teal(..)` inside a with statement
+        self.cvars = set()
+        if contracts_mode:
+            for w_ in ast.walk(ast.Module(body=body, type_ignores=[])):
+                if isinstance(w_, ast.With):
+                    for a_ in w_.body:
+                        if isinstance(a_, ast.Assign) and len(a_.targets) == 1 and isinstance(a_.targets[0], ast.Name):
+                            self.cvars.add(a_.targets[0].id)
         env = dict(params)
         env.update(env_extra or {})
         for n, _ in params:
@@ -1149,6 +1399,60 @@ def user_types_table(path, tree):
     return f"(* {CFG_REL}: USER_CONFIG_TRANSACTION_TYPES (line {found[0].lineno}) *)\nDefinition USER_CONFIG_TRANSACTION_TYPES : list (string * string) :=\n  [{body}]."
 
 
+def contract_types_table(path, tree):
+    name = "GROUP_CONFIG_CONTRACT_TYPES"
+    found = [s for s in tree.body if isinstance(s, ast.Assign) and len(s.targets) == 1 and isinstance(s.targets[0], ast.Name) and s.targets[0].id == name]
+    n = sum(1 for node in ast.walk(tree) if isinstance(node, ast.Name) and node.id == name and isinstance(node.ctx, (ast.Store, ast.Del)))
+    if len(found) != 1 or n != 1 or not isinstance(found[0].value, ast.List):
+        raise TranslateError(f"translator: {path}: {name} must be bound once, to a list literal")
+    for node in ast.walk(tree):
+        # the list is only read (x in / not in it): no method call on it, no alias
+        if isinstance(node, ast.Name) and node.id == name and isinstance(node.ctx, ast.Load):
+            pass
+        if isinstance(node, ast.Attribute) and isinstance(node.value, ast.Name) and node.value.id == name:
+            fail(path, node, f"{name} is used as an object (it may be modified)")
+    rows = []
+    for x in found[0].value.elts:
+        if not (isinstance(x, ast.Constant) and isinstance(x.value, str)):
+            fail(path, found[0], f"element of {name}")
+        rows.append(x.value)
+    body = "; ".join(coq_str(r) for r in rows)
+    return f"(* {CFG_REL}: {name} (line {found[0].lineno}) *)\nDefinition {name} : list string :=\n  [{body}]."
+
+
+def check_contracts_loop(path, loop):
+    """the aliasing discipline that makes `teal` a VALUE variable: inside the body of the contracts loop the Teal
+    object is only (1) bound by the with statement, (2) the target of attribute stores, (3) the first argument of
+    construct_function (Function.contract = teal: fingerprinted; the glue table reads a Function of a contract c as
+    (index, c) with the FINAL c), (4) stored once, by the LAST statement of the body, into a dict; the file object of
+    the with statement and the loop variable are not stored anywhere"""
+    if not (isinstance(loop, ast.For) and ast.unparse(loop.target) == "contract_config" and ast.unparse(loop.iter) == "config.contracts" and not loop.orelse and len(loop.body) >= 2):
+        fail(path, loop, "expected `for contract_config in config.contracts:`")
+    withs = [n for n in ast.walk(loop) if isinstance(n, ast.With)]
+    if len(withs) != 1 or withs[0] is not loop.body[0]:
+        fail(path, loop, "the contracts loop no longer starts with its only with statement")
+    w_ = withs[0]
+    if not (len(w_.body) == 1 and isinstance(w_.body[0], ast.Assign) and len(w_.body[0].targets) == 1 and isinstance(w_.body[0].targets[0], ast.Name)):
+        fail(path, w_, "body of the with statement")
+    teal = w_.body[0].targets[0].id
+    last = loop.body[-1]
+    if not (isinstance(last, ast.Assign) and len(last.targets) == 1 and isinstance(last.targets[0], ast.Subscript) and isinstance(last.targets[0].value, ast.Name)
+            and isinstance(last.value, ast.Name) and last.value.id == teal):  # fmt: skip
+        fail(path, last, f"the last statement of the contracts loop no longer stores {teal} into the table")
+    allowed = {id(last.value), id(w_.body[0].targets[0])}
+    for node in ast.walk(loop):
+        if isinstance(node, ast.Call) and isinstance(node.func, ast.Name) and node.func.id == "construct_function" and node.args and isinstance(node.args[0], ast.Name):
+            allowed.add(id(node.args[0]))
+        if isinstance(node, ast.Assign) and len(node.targets) == 1 and isinstance(node.targets[0], ast.Attribute) and isinstance(node.targets[0].value, ast.Name):
+            allowed.add(id(node.targets[0].value))
+    for node in ast.walk(loop):
+        if isinstance(node, ast.Name) and node.id == teal and id(node) not in allowed:
+            fail(path, node, f"{teal} is used in a way that may create an alias of the Teal object")
+    for node in ast.walk(loop):
+        if isinstance(node, ast.Name) and node.id == "config" and node is not loop.iter.value:
+            fail(path, node, "config is used inside the contracts loop")
+
+
 def check_imports(path, tree, want):
     got = {}
     for node in ast.walk(tree):
@@ -1176,7 +1480,10 @@ def emit_groupinit(outdir):
     check_fingerprints()
     cpath = os.path.join(T, CFG_REL)
     ctree = parse(cpath)
-    check_imports(cpath, ctree, {"TransactionType": "tealer.utils.teal_enums.TransactionType", "dataclass": "dataclasses.dataclass"})
+    check_imports(cpath, ctree, {"TransactionType": "tealer.utils.teal_enums.TransactionType", "dataclass": "dataclasses.dataclass", "Path": "pathlib.Path"})
+    ecs = [n for n in ctree.body if isinstance(n, ast.ClassDef) and n.name == "InvalidGroupConfiguration"]
+    if len(ecs) != 1 or ast.unparse(ecs[0]) != EXN_CLASS_TEXT:
+        raise TranslateError(f"translator: {cpath}: InvalidGroupConfiguration is no longer a plain subclass of Exception (str(err) = its message)")
     dcs = DataClasses(cpath, ctree)
     tpath = os.path.join(T, TX_REL)
     ttree = parse(tpath)
@@ -1193,8 +1500,13 @@ def emit_groupinit(outdir):
             "ContractType": "tealer.utils.teal_enums.ContractType",
             "TealerException": "tealer.exceptions.TealerException",
             "construct_function": "tealer.teal.parse_functions.construct_function",
+            "parse_teal": "tealer.teal.parse_teal.parse_teal",
+            "contract_type_from_txt": "tealer.utils.teal_enums.contract_type_from_txt",
         },
     )  # fmt: skip
+    for node in ast.walk(mtree):
+        if (isinstance(node, ast.Name) and node.id == "open" and isinstance(node.ctx, (ast.Store, ast.Del))) or (isinstance(node, (ast.FunctionDef, ast.ClassDef)) and node.name == "open") or (isinstance(node, ast.arg) and node.arg == "open") or (isinstance(node, ast.alias) and (node.asname or node.name) == "open"):
+            raise TranslateError(f"translator: {mpath}: the builtin open is re-bound")
 
     L = []
     w = L.append
@@ -1209,6 +1521,7 @@ def emit_groupinit(outdir):
     w("Open Scope string_scope.")
     w("Open Scope list_scope.")
     w(PRELUDE.rstrip("\n"))
+    w(PRELUDE2.rstrip("\n"))
     w("")
     w("(* ====================================================================== *)")
     w("(* TRANSLATED                                                             *)")
@@ -1263,7 +1576,7 @@ def emit_groupinit(outdir):
     if len(body) != 5:
         fail(mpath, fn, "init_tealer_from_config no longer consists of: contracts = {}, the contracts loop, group_objs_list = [], the groups loop, return")
     same_stmt(mpath, body[0], "contracts: Dict[str, 'Teal'] = {}")
-    same_stmt(mpath, body[1], CONTRACTS_LOOP)
+    check_contracts_loop(mpath, body[1])
     same_stmt(mpath, body[2], "group_objs_list: List[GroupTransaction] = []")
     same_stmt(mpath, body[4], "return Tealer(contracts, group_objs_list, output_group=True)")
     loop = body[3]
@@ -1322,6 +1635,76 @@ def emit_groupinit(outdir):
     ).replace("rs pair", "rs (list tobj * gobj)"))  # fmt: skip
     n += 1
     w(POSTLUDE.rstrip("\n"))
+
+    # ================================================================== the contracts part of a configuration
+    w("")
+    w("(* ====================================================================== *)")
+    w("(* TRANSLATED, part 2: the contracts part of a configuration                 *)")
+    w("(* ====================================================================== *)")
+    w(contract_types_table(cpath, ctree))
+    n += 1
+    w("")
+    w(f"(* {CFG_REL}: the dataclasses GroupConfigFunction, GroupConfigContract, GroupConfig (fields in declaration order;")
+    w("   GLUE: a Path is its text) *)")
+    for t in dcs.text2:
+        w(t)
+    w("")
+    consts2 = dict(consts)
+    consts2["GROUP_CONFIG_CONTRACT_TYPES"] = ("GROUP_CONFIG_CONTRACT_TYPES", lst(STR))
+    tr = Tr(cpath, dcs, funs, consts2)
+    for cname, pname in (("GroupConfigFunction", "function"), ("GroupConfigContract", "contract"), ("GroupConfig", "config")):
+        fn = find_def(cpath, ctree, cname, "from_yaml")
+        check_sig(cpath, fn, [pname], static=True)
+        if ast.unparse(fn.args.args[0].annotation) != "Dict[str, Any]":
+            fail(cpath, fn, "parameter annotation is no longer Dict[str, Any]")
+        rty = DATACLASSES[cname][1]
+        w(tr.function(fn, f"{cname}_from_yaml_gen", [(pname, YMAP)], rty, f"{CFG_REL}: {cname}.from_yaml (line {fn.lineno})"))
+        funs[f"{cname}.from_yaml"] = (f"{cname}_from_yaml_gen", [YMAP], rty)
+        w("")
+        n += 1
+
+    # ---- teal_enums.py: contract_type_from_txt
+    epath = os.path.join(T, ENUM_REL)
+    etree = parse(epath)
+    fn = find_toplevel(etree, "contract_type_from_txt", epath)
+    check_sig(epath, fn, ["contract_type"])
+    if ast.unparse(fn.args.args[0].annotation) != "str" or ast.unparse(fn.returns) != "ContractType":
+        fail(epath, fn, "annotations of contract_type_from_txt")
+    tr = Tr(epath, dcs, {}, {})
+    w(tr.function(fn, "contract_type_from_txt_gen", [("contract_type", STR)], CTYPE, f"{ENUM_REL}: contract_type_from_txt (line {fn.lineno})"))
+    w("")
+    n += 1
+
+    # ---- common.py: the contracts loop of init_tealer_from_config
+    fn = find_toplevel(mtree, "init_tealer_from_config", mpath)
+    body = strip_doc(fn.body)
+    if ast.unparse(fn.args.args[0].annotation) != "'GroupConfig'":
+        fail(mpath, fn, "parameter annotation of init_tealer_from_config")
+    tr = Tr(mpath, dcs, {"contract_type_from_txt": ("contract_type_from_txt_gen", [STR], CTYPE)}, consts)
+
+    def end_contracts(env2):
+        if env2.get("contracts") != dct(STR, CONTRACT) or env2.get("ftable") != FTABLE:
+            fail(mpath, fn, "contracts is not the table of Teal objects at the end of the contracts loop")
+        return "Ok (contracts, ftable)"
+
+    w("(* GLUE (contracts loop): reading the file and parse_teal, and construct_function, are UNINTERPRETED parameters.")
+    w("   `with open(p, encoding='utf-8') as f: teal = parse_teal(f.read(), n)` is `load_and_parse p n` (it may raise); teal is")
+    w("   then a VALUE variable (the translator checks that the object is not aliased before the last statement of the")
+    w("   loop body, except as Function.contract, which the glue table reads as the final value);")
+    w("   `func = construct_function(teal, path, name)` may raise (construct_function_call) and otherwise yields the next")
+    w("   index of the table `ftable` of constructed functions, which records the arguments of the calls in order *)")
+    w("Section ContractsLoop.")
+    w("Variable load_and_parse : string -> string -> rs tcontract.")
+    w("Variable construct_function_call : tcontract -> list string -> string -> rs unit.")
+    w("")
+    w(tr.function(
+        fn, "init_contracts_gen", [("config", CFGCONFIG)], ("pair",),
+        f"{COMMON_REL}: init_tealer_from_config (line {fn.lineno}): `contracts = {{}}` and the loop `for contract_config in config.contracts:` (line {body[1].lineno});\n   result = (contracts, the table of constructed functions)",
+        stmts=body[:2], env_extra={"ftable": FTABLE}, end=end_contracts, pre="let ftable := [] in\n", contracts_mode=True,
+    ).replace("rs pair", "rs (list (string * tcontract) * list (tcontract * list string * string))"))  # fmt: skip
+    n += 1
+    w(POSTLUDE2.rstrip("\n"))
+    w("End ContractsLoop.")
     os.makedirs(outdir, exist_ok=True)
     with open(os.path.join(outdir, "GroupInitGen.v"), "w") as fh:
         fh.write("\n".join(L) + "\n")
